@@ -162,6 +162,9 @@ pub fn families(n: usize, seed: u64) -> Vec<Fam> {
     out.push(Fam { name: format!("unrelated-{}", c), old: (0..c as u32).collect(), new: (c as u32..2 * c as u32).collect() });
     out.push(Fam { name: format!("reversed-{}", c), old: (0..c as u32).collect(), new: (0..c as u32).rev().collect() });
     let mut g = Lcg(0xABCD ^ seed);
+    for i in super::large::staggered(seed) {
+        out.push(Fam { name: format!("{}-{}", i.name, n), old: i.old, new: i.new });
+    }
     out.push(Fam {
         name: format!("lcg4-unrelated-{}", c),
         old: (0..c).map(|_| g.below(4) as u32).collect(),
